@@ -16,7 +16,7 @@ spec/SigQuorum.tla (+ TraceSigQuorum.tla, QuorumDefs.tla); driver harness/cmd/vd
                (TraceSigQuorum): Safety, Rule, SetOnly per event.  Only monitor failures are violations; a mismatch
                with the implementation-shaped prediction that the monitor accepts is recorded as drift.
 """
-import json, threading
+import json, concurrent.futures
 
 CFG = """SPECIFICATION Spec
 CONSTANTS Kind = "%(kind)s"
@@ -51,33 +51,98 @@ F11 = "vbft-block:peer-set-switched-by-rejected-block"
 SOLO17 = "solo:more-than-16-bookkeepers:any-key-list-accepted"
 
 
+def _par(jobs, width):
+    """run callables concurrently (they only start sub-processes); results in order; the first exception is re-raised"""
+    import time as _t
+    t0 = _t.time()
+    done = []
+
+    def timed(j, k):
+        def f():
+            r = j()
+            done.append((k, round(_t.time() - t0, 1)))
+            return r
+        return f
+    with concurrent.futures.ThreadPoolExecutor(max_workers=width) as ex:
+        futs = [ex.submit(timed(j, k)) for k, j in enumerate(jobs)]
+        res, err = [], None
+        for f in futs:
+            try:
+                res.append(f.result())
+            except Exception as e:        # NoVerdict included
+                res.append(None)
+                err = err or e
+        if err:
+            raise err
+        _par.last = sorted(done)
+        return res
+
+
 def run(ctx):
     q = ctx.quick
     b = ctx.build("vd-sig")
-    # ---- 1. design level
-    ctx.mc("SigQuorum", "c14_thm.cfg", files={"c14_thm.cfg": cfg("theorem", n=2 if q else 3, emit="FALSE")}, timeout=1500)
-    r = ctx.tlc("SigQuorum", "c14_asis.cfg", timeout=600, quiet=True, files={"c14_asis.cfg": cfg(
-        "replay", n=4, cfgs="{{5}}", lists="{{1}, {5}}", paths='{"sub"}', d=3, asis="TRUE", emit="FALSE",
-        extra="INVARIANT PropC14\nPROPERTY PropC14Step")})
-    if r.invariant_violated is None:
-        ctx.fail("sensitivity run: the as-is model (peer set assigned before the body check) no longer violates PropC14")
-    # ---- 2. table
     if q:
         worlds = {("vbft", "legacy"): ([1, 2, 3, 4, 5, 8], {1: "hdr,sub,add", 2: "hdr,sub,add", 3: "hdr,sub,add", 4: "hdr,sub,add", 5: "hdr", 8: "hdr,sub"}),
                   ("vbft", "bft"): ([3, 4, 7], {3: "hdr,sub", 4: "hdr,sub,add", 7: "hdr"}),
                   ("solo", "bft"): ([1, 2, 3, 4, 5, 16, 17], {1: "hdr,sub,add", 2: "hdr,sub,add", 3: "hdr,sub,add", 4: "hdr,sub,add", 5: "hdr", 16: "hdr,sub", 17: "hdr,sub,add"})}
         fulln = 5
+        replays = [("vbft", "legacy", 4, "{{5}, {2, 5}}", "{{1}, {5}, {2}, {}}", '{"hdr"}'),
+                   ("vbft", "legacy", 4, "{{5}}", "{{1}, {5}}", '{"sub"}'),
+                   ("vbft", "legacy", 4, "{{5}}", "{{1}, {5}}", '{"add"}'),
+                   ("solo", "bft", 3, "{{1, 2, 3}, {4}}", "{{1, 2, 3}, {4}, {1, 2}}", '{"hdr"}'),
+                   ("solo", "bft", 3, "{{1, 2, 3}, {4}}", "{{1, 2, 3}, {4}}", '{"sub"}')]
     else:
-        worlds = {("vbft", "legacy"): ([1, 2, 3, 4, 5, 6, 7, 8, 15, 22], {7: "hdr,sub", 15: "hdr,sub", 22: "hdr"}),
-                  ("vbft", "bft"): ([1, 2, 3, 4, 5, 6, 7, 10], {7: "hdr,sub", 10: "hdr,sub"}),
-                  ("solo", "bft"): ([1, 2, 3, 4, 5, 6, 7, 16, 17, 20], {7: "hdr,sub", 20: "hdr"})}
+        # (a genesis block cannot be built for more than 16 bookkeepers in any mode since fix 61788f9; larger vbft sets
+        #  are reached by hand-over in the replays and in C42's threshold measurements)
+        worlds = {("vbft", "legacy"): ([1, 2, 3, 4, 5, 6, 7, 8, 15, 16], {7: "hdr,sub", 15: "hdr,sub", 16: "hdr"}),
+                  ("vbft", "bft"): ([1, 2, 3, 4, 5, 6, 7, 10, 16], {7: "hdr,sub", 10: "hdr,sub", 16: "hdr"}),
+                  ("solo", "bft"): ([1, 2, 3, 4, 5, 6, 7, 16, 17], {7: "hdr,sub", 16: "hdr,sub"})}
         fulln = 7
-    rows = ctx.gen("SigQuorum", "c14_table.cfg", "ROW", timeout=1500, files={"c14_table.cfg": cfg(
-        "table", fulln=fulln, nsl=tset(worlds[("vbft", "legacy")][0]), nsb=tset(worlds[("vbft", "bft")][0]),
-        nss=tset(worlds[("solo", "bft")][0]))})
+        replays = [("vbft", "legacy", 4, "{{5}, {2, 5}}", "{{1}, {5}, {2}, {}, {1, 5}}", '{"hdr"}'),
+                   ("vbft", "legacy", 4, "{{5}, {2, 5}}", "{{1}, {5}, {}}", '{"sub"}'),
+                   ("vbft", "legacy", 4, "{{5}, {2, 5}}", "{{1}, {5}, {}}", '{"add"}'),
+                   ("vbft", "legacy", 4, "{{5}}", "{{1}, {5}}", '{"sub", "add"}'),
+                   ("vbft", "legacy", 8, "{{9}, {1, 9}}", "{{1, 2}, {9}, {1}}", '{"sub"}'),
+                   ("vbft", "legacy", 4, "{{5, 6, 7, 8, 9, 10, 11, 12, 13, 14, 15, 16, 17, 18, 19, 20, 21, 22}}",
+                    "{{1}, {5, 6, 7}, {5, 6}, {21, 22}}", '{"hdr"}'),     # hand-over to 18 validators (legacy m = 3)
+                   ("vbft", "bft", 4, "{{5}, {2, 5}}", "{{1, 2, 3}, {5}, {2, 5}, {1, 2}}", '{"hdr"}'),
+                   ("vbft", "bft", 4, "{{5}, {2, 5}}", "{{1, 2, 3}, {5}, {2, 5}}", '{"sub"}'),
+                   ("solo", "bft", 3, "{{1, 2, 3}, {4}, {2, 4}}", "{{1, 2, 3}, {4}, {1, 2}, {2, 4}}", '{"hdr"}'),
+                   ("solo", "bft", 3, "{{1, 2, 3}, {4}}", "{{1, 2, 3}, {4}, {1, 2}}", '{"sub"}'),
+                   ("solo", "bft", 3, "{{1, 2, 3}, {4}}", "{{1, 2, 3}, {4}}", '{"add"}')]
+    # ---- stage A: all TLC runs side by side (each one is a JVM start plus a small search)
+    def j_thm():
+        return ctx.mc("SigQuorum", "c14_thm.cfg", files={"c14_thm.cfg": cfg("theorem", n=2 if q else 3, emit="FALSE")}, timeout=1500, workers=4)
+
+    def j_asis():
+        return ctx.tlc("SigQuorum", "c14_asis.cfg", timeout=600, quiet=True, workers=1, files={"c14_asis.cfg": cfg(
+            "replay", n=4, cfgs="{{5}}", lists="{{1}, {5}}", paths='{"sub"}', d=3, asis="TRUE", emit="FALSE",
+            extra="INVARIANT PropC14\nPROPERTY PropC14Step")})
+
+    def j_table():
+        return ctx.gen("SigQuorum", "c14_table.cfg", "ROW", timeout=1500, files={"c14_table.cfg": cfg(
+            "table", fulln=fulln, nsl=tset(worlds[("vbft", "legacy")][0]), nsb=tset(worlds[("vbft", "bft")][0]),
+            nss=tset(worlds[("solo", "bft")][0]))})
+
+    def j_replay(i):
+        mode, rule, n, cfgs, lists, paths = replays[i]
+        name = "c14_replay%d.cfg" % i
+        return lambda: ctx.gen("SigQuorum", name, "TRACE", timeout=1500, files={name: cfg(
+            "replay", mode=mode, rule=rule, n=n, cfgs=cfgs, lists=lists, paths=paths, d=3,
+            extra="CONSTRAINT Emit\nINVARIANT PropC14\nPROPERTY PropC14Step")})
+    resA = _par([j_thm, j_asis, j_table] + [j_replay(i) for i in range(len(replays))], 8)
+    ctx.note("stage A (TLC) job finish times: %s" % _par.last)
+    if resA[1].invariant_violated is None:
+        ctx.fail("sensitivity run: the as-is model (peer set assigned before the body check) no longer violates PropC14")
+    rows, rtraces = resA[2], resA[3:]
     if len(rows) < 1500:
         ctx.fail("too few table rows: %d" % len(rows))
-    # solo first, then vbft/legacy, then the padded worlds (they share one padded header index)
+    for i, t in enumerate(rtraces):
+        if len(t) < 60:
+            ctx.fail("too few behaviours from replay cfg %d: %d" % (i, len(t)))
+    n_beh = sum(len(t) for t in rtraces)
+    ctx.sample({"replay_behaviour": rtraces[1][len(rtraces[1]) // 2]})
+    # ---- table rows: which world, which entry points
     order = {("solo", "bft"): 0, ("vbft", "legacy"): 1, ("vbft", "bft"): 2}
     trows = []
     for r_ in rows:
@@ -85,7 +150,7 @@ def run(ctx):
         r_["cond"] = {("solo", "bft"): "", ("vbft", "legacy"): "main-low", ("vbft", "bft"): "main-high"}[k]
         r_["paths"] = worlds[k][1].get(r_["n"], "hdr,sub,add")
         trows.append(r_)
-    # the rule must stay "legacy" above height 20,000,000 on any other network: same rows as vbft/legacy n=4, header path
+    # the rule must stay "legacy" above height 20,000,000 on any other network: same rows as vbft/legacy n=4
     for r_ in rows:
         if (r_["mode"], r_["rule"], r_["n"]) == ("vbft", "legacy", 4):
             x = dict(r_)
@@ -93,77 +158,34 @@ def run(ctx):
             trows.append(x)
     trows.sort(key=lambda x: (order[(x["mode"], x["rule"])] + (3 if x["cond"] == "other-high" else 0), x["n"]))
     ctx.sample({"table_row": trows[len(trows) // 3]})
-    events = []
-
-    def table_run(part, res):
-        try:
-            res.append(ctx.driver(b, ["hdr-table", "hdr"], input_obj=part, timeout=3000))
-        except Exception as ex:      # re-raised in the main thread
-            res.append(ex)
-    # the worlds above height 20,000,000 need the padded header index (about 1.3 GB, 5-12 s to build): that driver run
-    # goes on in the background while the other parts are generated and executed
+    # the worlds above height 20,000,000 need the padded header index (about 1.3 GB, 5-12 s to build): own process
     padded = [x for x in trows if x["cond"] in ("main-high", "other-high")]
     plain = [x for x in trows if x["cond"] not in ("main-high", "other-high")]
-    pres = []
-    pth = threading.Thread(target=table_run, args=(padded, pres))
-    pth.start()
-    try:
-        out = ctx.driver(b, ["hdr-table", "hdr"], input_obj=plain, timeout=3000)
-        tevents = []
-
-        def take_table(out):
-            for s in [o for o in out if o.get("skipped")]:
-                if not (s["mode"] == "solo" and s["n"] > 16):
-                    ctx.fail("ledger could not be created: %s" % s)
-                ctx.note("solo ledger with %d bookkeepers cannot be created (%s): %d rows not executed" % (s["n"], s["err"][:80], s["rows"]))
-            tevents.extend(o for o in out if "op" in o and not o.get("skipped"))
-        take_table(out)
-        # ---- 3. replay
-        if q:
-            replays = [("vbft", "legacy", 4, "{{5}, {2, 5}}", "{{1}, {5}, {2}, {}}", '{"hdr"}'),
-                       ("vbft", "legacy", 4, "{{5}}", "{{1}, {5}}", '{"sub"}'),
-                       ("vbft", "legacy", 4, "{{5}}", "{{1}, {5}}", '{"add"}'),
-                       ("solo", "bft", 3, "{{1, 2, 3}, {4}}", "{{1, 2, 3}, {4}, {1, 2}}", '{"hdr"}'),
-                       ("solo", "bft", 3, "{{1, 2, 3}, {4}}", "{{1, 2, 3}, {4}}", '{"sub"}')]
-        else:
-            replays = [("vbft", "legacy", 4, "{{5}, {2, 5}}", "{{1}, {5}, {2}, {}, {1, 5}}", '{"hdr"}'),
-                       ("vbft", "legacy", 4, "{{5}, {2, 5}}", "{{1}, {5}, {}}", '{"sub"}'),
-                       ("vbft", "legacy", 4, "{{5}, {2, 5}}", "{{1}, {5}, {}}", '{"add"}'),
-                       ("vbft", "legacy", 4, "{{5}}", "{{1}, {5}}", '{"sub", "add"}'),
-                       ("vbft", "legacy", 8, "{{9}, {1, 9}}", "{{1, 2}, {9}, {1}}", '{"sub"}'),
-                       ("vbft", "bft", 4, "{{5}, {2, 5}}", "{{1, 2, 3}, {5}, {2, 5}, {1, 2}}", '{"hdr"}'),
-                       ("vbft", "bft", 4, "{{5}, {2, 5}}", "{{1, 2, 3}, {5}, {2, 5}}", '{"sub"}'),
-                       ("solo", "bft", 3, "{{1, 2, 3}, {4}, {2, 4}}", "{{1, 2, 3}, {4}, {1, 2}, {2, 4}}", '{"hdr"}'),
-                       ("solo", "bft", 3, "{{1, 2, 3}, {4}}", "{{1, 2, 3}, {4}, {1, 2}}", '{"sub"}'),
-                       ("solo", "bft", 3, "{{1, 2, 3}, {4}}", "{{1, 2, 3}, {4}}", '{"add"}')]
-        n_beh = n_replay = 0
-        for i, (mode, rule, n, cfgs, lists, paths) in enumerate(replays):
-            name = "c14_replay%d.cfg" % i
-            traces = ctx.gen("SigQuorum", name, "TRACE", timeout=1500, files={name: cfg(
-                "replay", mode=mode, rule=rule, n=n, cfgs=cfgs, lists=lists, paths=paths, d=3,
-                extra="CONSTRAINT Emit\nINVARIANT PropC14\nPROPERTY PropC14Step")})
-            if len(traces) < 100:
-                ctx.fail("too few behaviours from replay cfg %d: %d" % (i, len(traces)))
-            n_beh += len(traces)
-            out = ctx.driver(b, ["hdr-replay", mode, rule, str(n)], input_obj=traces, timeout=3000)
-            ev = [o for o in out if "op" in o]
-            n_replay += len([e for e in ev if "exp" in e])
-            events += ev
-            if i == 1:
-                ctx.sample({"replay_behaviour": traces[len(traces) // 2]})
-        ctx.note("replay: %d behaviours -> %d executions" % (n_beh, n_replay))
-    finally:
-        pth.join()
-    if isinstance(pres[0], Exception):
-        raise pres[0]
-    take_table(pres[0])
-    events = tevents + events
-    n_table = len([e for e in tevents if e["op"] != "reset"])
-    ctx.note("table: %d rows -> %d executions" % (len(trows), n_table))
-    # ---- random runs (recorded only)
     nt, ns = (16, 30) if q else (150, 60)
-    out = ctx.driver(b, ["hdr-random", str(nt), str(ns)], timeout=3000)
-    rnd = [o for o in out if "op" in o]
+    # ---- stage B: all driver runs side by side (separate processes, separate ledgers)
+    jobs = [lambda: ctx.driver(b, ["hdr-table", "hdr"], input_obj=plain, timeout=3000),
+            lambda: ctx.driver(b, ["hdr-table", "hdr"], input_obj=padded, timeout=3000)]
+    for i, (mode, rule, n, cfgs, lists, paths) in enumerate(replays):
+        jobs.append((lambda i, mode, rule, n: lambda: ctx.driver(b, ["hdr-replay", mode, rule, str(n)], input_obj=rtraces[i], timeout=3000))(i, mode, rule, n))
+    jobs.append(lambda: ctx.driver(b, ["hdr-random", str(nt), str(ns)], timeout=3000))
+    resB = _par(jobs, 8 if q else 6)
+    ctx.note("stage B (drivers: table, padded table, replays..., random) job finish times: %s" % _par.last)
+    events = []
+    for out in resB[:2]:
+        for s in [o for o in out if o.get("skipped")]:
+            if not (s["mode"] == "solo" and s["n"] > 16):
+                ctx.fail("ledger could not be created: %s" % s)
+            ctx.note("solo ledger with %d bookkeepers cannot be created (%s): %d rows not executed (%s)" % (s["n"], s["err"][:80], s["rows"], s["op"]))
+        events += [o for o in out if "op" in o and not o.get("skipped")]
+    n_table = len([e for e in events if e["op"] != "reset"])
+    ctx.note("table: %d rows -> %d executions" % (len(trows), n_table))
+    n_replay = 0
+    for out in resB[2:-1]:
+        ev = [o for o in out if "op" in o]
+        n_replay += len([e for e in ev if "exp" in e])
+        events += ev
+    ctx.note("replay: %d behaviours -> %d executions" % (n_beh, n_replay))
+    rnd = [o for o in resB[-1] if "op" in o]
     events += rnd
     ctx.sample({"recorded_events": [{k: e[k] for k in ("op", "mode", "bk", "sg", "cfg", "body", "acc", "obs")} for e in rnd[1:4]]})
     # ---- 4. the monitor judges everything that was executed
@@ -228,6 +250,9 @@ def run(ctx):
     for e in events:
         if e["op"] not in ("reset", "sync") and len(e["sg"]) >= 1:
             distinct.add((e["mode"], e["rule"], e["n"], e["op"], tuple(e["bk"]), tuple(e["sg"]), tuple(e["cfg"]), e["body"]))
+    # (TLC runs were started from several threads: recompute the totals from the per-run records)
+    ctx.cov["states"] = sum(r_["distinct"] for r_ in ctx.cov["tlc_runs"] if r_["cfg"] != "c14_asis.cfg")
+    ctx.cov["transitions"] = sum(r_["generated"] for r_ in ctx.cov["tlc_runs"] if r_["cfg"] != "c14_asis.cfg")
     ctx.cov["evaluations"] = len([e for e in events if e["op"] not in ("reset", "sync")])
     ctx.cov["distinct_nontrivial"] = len(distinct)
     return ctx.finish(rule="P-TABLE: %d rows (all signer subsets up to %d validators x header variants, three rule/mode families) x "
